@@ -15,7 +15,7 @@ FUNCTIONS = ['Value::do_exec', 'Value::do_sha256/do_ripemd160/do_hash256/do_hash
              'EncodeBase58(Check)/DecodeBase58(Check)', 'bech32::Encode/Decode', 'Value(const char*) inline-function parser']
 ASSUMPTIONS = ['hash compression functions uninterpreted on symbolic input (the digest arithmetic itself is outside; wiring, padding, composition are inside)', 'allocation never fails', 'printf-family output captured by the process-environment model']
 OUTSIDE = ['base58check round trips (the 4 checksum bytes are uninterpreted-hash terms that the base-58 long division must then divide: no verdict within 240 s) - base58check is exercised concretely in the encoder validation only', 'Jacobi symbol, pubkey combine/tweak, verify-sig (libsecp256k1 / 256-bit data-dependent loops)', 'base58 payloads longer than 2 bytes (symbolic division by 58 in nested loops: 3 bytes returns unknown after 80 s)', 'bech32 round trips beyond 2 data symbols in quick / 3 in thorough (n=3 exceeds 240 s); corruption detection is decided for 0 and 2 data symbols', 'CPU-specific SHA back ends']
-BOUNDS = 'hash transforms: message lengths {0,1,31,32,55,56,64}; reverse/len/prefix: lengths {0,1,2,5,252,253}; add/sub: 32-byte operands symbolic without group, low 6 bytes symbolic with a group; base58: payload 0..3 bytes incl. leading zeros; bech32/bech32m: 0..6 five-bit symbols, every single-character substitution at every position'
+BOUNDS = 'hash transforms: message lengths {0,1,31,32,55,56,64}; reverse/len/prefix: lengths {0,1,2,5,252,253}; add/sub: 32-byte operands symbolic without group, low 6 bytes symbolic with a symbolic group, 32-byte residues symbolic with the groups n, p (secp256k1) and 2^256-1; base58: payload 0..3 bytes incl. leading zeros; bech32/bech32m: 0..6 five-bit symbols, every single-character substitution at every position'
 
 def setup(E):
     stubs.install_all(E)
@@ -34,6 +34,10 @@ def obligations(tier, seed):
     for L in (0, 1, 2, 4): obs.append(dict(name='inline/hex/L%d' % L, kind='hex', L=L)); obs.append(dict(name='inline/int/L%d' % L, kind='int', L=L))
     for fun in ('add', 'sub'):
         for grp in (0, 1): obs.append(dict(name='inline/%s/group%d' % (fun, grp), kind='arith', fun=fun, grp=grp))
+        # a modulus above 2^255 (the sum can carry out of bit 255): secp256k1 group order / field prime / 2^256-1, residues fully symbolic (seed C14-1)
+        for gname in ('n', 'p', 'max'):
+            lo = 0 if (fun == 'add' or tier != 'quick') else 12          # sub = add(a, g - b, g): the extra 256-bit subtraction makes the fully symbolic form exceed the quick budget (measured > 240 s)
+            obs.append(dict(name='inline/%s/group-%s%s' % (fun, gname, '/low%dfixed' % lo if lo else ''), kind='arith', fun=fun, grp=2, gname=gname, lowfixed=lo))
     for tagl in (3, 7): obs.append(dict(name='inline/tagged_hash/tag%d' % tagl, kind='tagged', tagl=tagl, L=5))
     obs.append(dict(name='expr/sha256(0x..)', kind='expr', fun='sha256', L=2))
     obs.append(dict(name='expr/hash160(0x..)', kind='expr', fun='hash160', L=3))
@@ -47,6 +51,7 @@ def obligations(tier, seed):
             for pos in range(3, L): obs.append(dict(name='bech32/corrupt/n%d/m%d/pos%d' % (n, m, pos), kind='bechcorrupt', n=n, m=m, pos=pos))
     return obs
 
+BIGGROUPS = dict(n=0xFFFFFFFFFFFFFFFFFFFFFFFFFFFFFFFEBAAEDCE6AF48A03BBFD25E8CD0364141, p=2**256 - 2**32 - 977, max=2**256 - 1)
 CHARSET = 'qpzry9x8gf2tvdw0s3jn54khce6mua7l'
 def polymod(vals):
     """BIP173 polymod over 5-bit terms (30-bit accumulator)"""
@@ -115,8 +120,12 @@ def prep(ob, V=None):
         data = [var('b%d' % i) for i in range(ob['L'])]
         return 'w_tf_data', [('in', list(b'int') + [0]), ('in', data), ('u32', ob['L']), ('out', 200)], io_dump(['handled', 'type', 'int64']), lambda ctx: dict(handled=1, type=T_INT, int64=R.num_decode(ctx, [R.B(x) for x in data], z3.BoolVal(False), 4)), [], dict(data=data)
     if k == 'arith':
-        nsym = 32 if not ob['grp'] else 6          # with a group the limb-wise comparisons of arith_uint256 fork per limb: only the low 6 bytes are symbolic there
+        nsym = 32 if ob['grp'] != 1 else 6          # with a symbolic group the limb-wise comparisons of arith_uint256 fork per limb: only the low 6 bytes are symbolic there
         a = [var('a%d' % i) if i < nsym else 0 for i in range(32)]; b = [var('b%d' % i) if i < nsym else 0 for i in range(32)]; g = [var('g%d' % i) if i < nsym else 0 for i in range(32)]
+        if ob['grp'] == 2:
+            g = list(BIGGROUPS[ob['gname']].to_bytes(32, 'little'))
+            lo = ob.get('lowfixed', 0)        # little-endian: the low `lo` bytes are fixed constants, the bytes above (where the carry out of bit 255 is decided) symbolic
+            a = [(0x5a + 3 * i) & 0xff if i < lo else a[i] for i in range(32)]; b = [(0xc3 + 5 * i) & 0xff if i < lo else b[i] for i in range(32)]
         data = [32] + a + [32] + b + ([32] + g if ob['grp'] else [])
         A = z3.ZeroExt(1, R.B(hlib.le(a), 256)); Bv = z3.ZeroExt(1, R.B(hlib.le(b), 256)); G = z3.ZeroExt(1, R.B(hlib.le(g), 256))
         assume = [z3.ULT(A, G), z3.ULT(Bv, G)] if (ob['grp'] and sym) else []           # residues of the group
